@@ -267,6 +267,34 @@ def custom(job):
                     out.append({"kind": "F", "draft": d, "behaviour": [kind, repr(val)], "instance": inst, "problem": prob})
                     if len(out) >= 3:
                         return {"failures": out, "tried": tried}
+    # names a checker does not know always pass - also names that OTHER checker objects know (other drafts' spellings),
+    # and the validator agrees with its own checker's conforms()
+    names = set()
+    checkers = [("FormatChecker()", jsonschema.FormatChecker())] + [(n, getattr(_format, n)) for n in
+                                                                  ("draft3_format_checker", "draft4_format_checker", "draft6_format_checker", "draft7_format_checker") if hasattr(_format, n)]
+    for _, c in checkers:
+        names |= set(c.checkers)
+    names |= {"carrot", "", "host-name", "hostname", "ip-address", "ipv4", "colour"}
+    bad = ["not an ip", "::::", "2020-13-45", "(", "not@@", " ", "\u0000", "1.2.3.4.5", "-a-"]
+    for cname, c in checkers:
+        for d, cls in ((3, validators.Draft3Validator), (4, validators.Draft4Validator), (7, validators.Draft7Validator)):
+            for name in sorted(names):
+                for x in bad:
+                    tried += 1
+                    try:
+                        conf = c.conforms(x, name)
+                        errs = list(cls({"format": name}, format_checker=c).iter_errors(x))
+                    except Exception as e:      # noqa
+                        out.append({"kind": "S", "draft": d, "behaviour": ["name", name], "instance": x, "problem": "%s raised %s for format %r" % (cname, type(e).__name__, name)})
+                        continue
+                    if name not in c.checkers and (not conf or errs):
+                        out.append({"kind": "F", "draft": d, "behaviour": ["unknown-name", name], "instance": x,
+                                    "problem": "%s does not know %r, yet conforms=%r and validation gave %d error(s)" % (cname, name, conf, len(errs))})
+                    elif conf != (not errs):
+                        out.append({"kind": "F", "draft": d, "behaviour": ["name", name], "instance": x,
+                                    "problem": "%s: conforms(%r, %r) is %r but validation gave %d error(s)" % (cname, x, name, conf, len(errs))})
+                    if len(out) >= 3:
+                        return {"failures": out, "tried": tried}
     return {"failures": out, "tried": tried}
 
 
